@@ -75,7 +75,7 @@ func xobjFile() pdfw.File {
 	s := func(d string) *pdfw.Stream { return &pdfw.Stream{Data: []byte(d)} }
 	c1 := "q 1 0 0 1 10 20 cm /Fm1 Do Q\nBT /F1 10 Tf 72 600 Td (page text) Tj ET\n"
 	f1 := "BT /F1 10 Tf 5 5 Td (outer form) Tj ET\nq 0.5 0 0 0.5 0 0 cm /Fm2 Do Q\n"
-	f2 := "BT /F1 8 Tf 1 1 Td (inner form) Tj ET\n"
+	f2 := "q BT /F1 8 Tf 1 1 Td (inner form) Tj ET\n" // the q is never matched: the form body leaves a saved state behind
 	objs := []pdfw.Obj{
 		{Num: 1, Body: "<< /Type /Font /Subtype /Type1 /BaseFont /Helvetica /Encoding /WinAnsiEncoding >>"},
 		{Num: 2, Stream: s(c1)},
